@@ -191,8 +191,7 @@ theorem circular_sum_eq_linear (L : Nat) (hL : 0 < L) (kmin kmax : Int) (hk : km
   rw [Finset.sum_congr rfl step2]
   -- Σ_m k~(i-m) x_m = Σ_j k_j x~(i-j)
   by_cases hio : inMin ≤ inMax
-  · have h := conv1dZero_isKernelOp kmin kmax k inMin inMax x
-    -- `IsKernelOp` is stated for output indices inside the line; use the underlying re-indexing directly
+  · -- re-indexing m = i - j (as in `conv1dZero_isKernelOp`, but for an output index outside the line too)
     have e1 : ∑ j ∈ Icc kmin kmax, k j * ext inMin inMax x (i - j)
         = ∑ j ∈ (Icc kmin kmax).filter (fun j => inMin ≤ i - j ∧ i - j ≤ inMax), k j * x (i - j) := by
       rw [Finset.sum_filter]
@@ -257,7 +256,7 @@ theorem dftFilter1_eq_direct (kmin kmax : Int) (k : Int → K) (inMin inMax : In
     fun r hr => toPeriodic1_getD L hL kmin kmax k (by omega) r hr
   have e1 := Int.emod_nonneg i (ne_of_gt hb)
   have e2 := Int.emod_lt_of_pos i hb
-  simp only [hf, hinv, Bool.not_true, Bool.false_eq_true, if_false]
+  simp only [hf, hinv, Bool.not_true, Bool.and_false, Bool.false_eq_true, if_false]
   split
   · -- input and output ranges are the padding range: no copy
     rename_i hsame
